@@ -267,6 +267,159 @@ def context_tie(ctx, infos):
                 ctx.count("matches_context:agree", len(answers))
 
 
+
+# ---------------------------------------------------------------------------------------------
+# recorded-event tie of the placement core (PM/FromDom.lean part B)
+#
+# A subclass of the real ParseContext (installed as `from_dom.ParseContext` only while one recorded parse runs, in this
+# process only) logs every *outermost* call the DOM walk makes into the placement core — insert_node, enter,
+# find_place, add_pending_mark, remove_pending_mark, sync, close_extra — with its arguments, and every direct write
+# of `open` / `needs_block` from outside those calls; after each event it notes what the call returned, `open` and
+# `len(nodes)`.  NodeContext arguments (sync target, `upto`) are recorded as their index in `nodes` at call time;
+# marks handed to add/remove_pending_mark carry an object-identity number (the code looks them up by identity).
+
+REC = {"info": None, "instances": []}
+
+
+def _enc_attrs(attrs):
+    return None if attrs is None else [[k, codec.jval(v)] for k, v in attrs.items()]
+
+
+class RecordingParseContext(ParseContext):
+    def __init__(self, parser, options, is_open):
+        self._depth = 1            # nothing is recorded during construction
+        self._events, self._obs, self._mark_ids, self._keep = [], [], {}, []
+        self._result = None
+        self._info = REC["info"]
+        super().__init__(parser, options, is_open)
+        self._depth = 0
+        self._init = {"isOpen": bool(is_open), "pw": options.preserve_whitespace, "topOpen": bool(options.top_open)}
+        self._supported = options.top_node is None and options.context is None and options.top_match is None
+        REC["instances"].append(self)
+
+    # -- direct writes from the DOM walk
+    @property
+    def open(self):
+        return self.__dict__.get("_open", 0)
+
+    @open.setter
+    def open(self, v):
+        self.__dict__["_open"] = v
+        if self._depth == 0:
+            self._note(["setOpen", v], None)
+
+    @property
+    def needs_block(self):
+        return self.__dict__.get("_needs_block", False)
+
+    @needs_block.setter
+    def needs_block(self, v):
+        self.__dict__["_needs_block"] = v
+        if self._depth == 0:
+            self._note(["setNeedsBlock", bool(v)], None)
+
+    def _note(self, ev, ret):
+        self._events.append(ev)
+        self._obs.append([ret if isinstance(ret, bool) else None, self.open, len(self.nodes)])
+
+    def _idx(self, cx):
+        for i, n in enumerate(self.nodes):
+            if n is cx:
+                return i
+        return None
+
+    def _mid(self, mark):
+        if id(mark) not in self._mark_ids:
+            self._mark_ids[id(mark)] = len(self._mark_ids)
+            self._keep.append(mark)     # keeps the object alive so that its id() is not reused
+        return self._mark_ids[id(mark)]
+
+    def _call(self, name, ev, *a, **k):
+        orig = getattr(ParseContext, name)
+        if self._depth > 0:
+            return orig(self, *a, **k)
+        event = ev()
+        self._depth += 1
+        try:
+            r = orig(self, *a, **k)
+        finally:
+            self._depth -= 1
+        self._note(event, r)
+        return r
+
+    def insert_node(self, node):
+        return self._call("insert_node", lambda: ["insertNode", self._info.node(node)], node)
+
+    def enter(self, type_, attrs=None, preserve_ws=None):
+        return self._call("enter", lambda: ["enter", self._info.nid[type_.name], _enc_attrs(attrs), preserve_ws], type_, attrs, preserve_ws)
+
+    def find_place(self, node):
+        return self._call("find_place", lambda: ["findPlace", self._info.node(node)], node)
+
+    def add_pending_mark(self, mark):
+        return self._call("add_pending_mark", lambda: ["addPending", self._mid(mark), self._info.mark(mark)], mark)
+
+    def remove_pending_mark(self, mark, upto):
+        return self._call("remove_pending_mark", lambda: ["removePending", self._mid(mark), self._info.mark(mark), self._idx(upto)], mark, upto)
+
+    def sync(self, to_):
+        return self._call("sync", lambda: ["sync", self._idx(to_)], to_)
+
+    def close_extra(self, open_end=False):
+        return self._call("close_extra", lambda: ["closeExtra", bool(open_end)], open_end)
+
+    def enter_inner(self, *a, **k):
+        if self._depth == 0:
+            self._supported = False      # never called by the DOM walk directly
+        return ParseContext.enter_inner(self, *a, **k)
+
+    def finish(self):
+        self._depth += 1
+        try:
+            self._result = ParseContext.finish(self)
+        finally:
+            self._depth -= 1
+        return self._result
+
+
+def recorded(info, fn):
+    """run fn() with the recording subclass installed; returns (outcome, recorder instances)"""
+    REC["info"], REC["instances"] = info, []
+    saved = from_dom_mod.ParseContext
+    from_dom_mod.ParseContext = RecordingParseContext
+    try:
+        res = outcome(fn, 5.0)
+    finally:
+        from_dom_mod.ParseContext = saved
+    return res, REC["instances"]
+
+
+def placement_request(info, sid, pc):
+    return {"op": "placement", "s": sid, "wsPre": [info.schema.nodes[n].whitespace == "pre" for n in info.node_names],
+            "isOpen": pc._init["isOpen"], "pw": pc._init["pw"], "topOpen": pc._init["topOpen"], "events": pc._events}
+
+
+def placement_compare(ctx, replay, info, pc, out, kind):
+    """model answer against the recorded run: the per-event observations and the final document / fragment"""
+    ctx.count("placement:" + kind)
+    ctx.count("placement_events", len(pc._events))
+    if out.get("obs") != pc._obs:
+        k = next((i for i, (a, b) in enumerate(zip(out.get("obs") or [], pc._obs)) if a != b), min(len(out.get("obs") or []), len(pc._obs)))
+        ctx.mismatch("placement-observation", dict(replay, event_index=k, event=pc._events[k] if k < len(pc._events) else None),
+                     pc._obs[k] if k < len(pc._obs) else None, (out.get("obs") or [None] * (k + 1))[k] if out.get("obs") and k < len(out["obs"]) else out.get("err", out))
+        return
+    res = pc._result
+    if isinstance(res, Node):
+        want = info.node(res)
+        got = out.get("doc")
+    else:
+        want = info.frag(res)
+        got = out.get("frag")
+    if got != want:
+        ctx.mismatch("placement-result", replay, want, got if got is not None else out)
+    else:
+        ctx.count("placement:agree")
+
 def run(ctx):
     core.lean_phase(ctx)
     rng = ctx.rng
@@ -274,7 +427,9 @@ def run(ctx):
     cschema = context_schema()
     parse_schemas = [("basic", basic_schema), ("list", list_schema), ("context", cschema)]
     parsers = {name: DOMParser.from_schema(s) for name, s in parse_schemas}
-    cinfo = codec.SchemaInfo(cschema, "context")
+    infos = {"basic": schemas.by_name("basic"), "list": schemas.by_name("list"), "context": codec.SchemaInfo(cschema, "context")}
+    preqs, pmetas = [], []
+    cinfo = infos["context"]
     ctx.guard(lambda: context_tie(ctx, [schemas.by_name("basic"), schemas.by_name("list"), cinfo, schemas.by_name("table"),
                                         schemas.by_name("marks-x")]), "context_tie")
     # ---- import: total and valid
@@ -290,6 +445,23 @@ def run(ctx):
         if st != "ok":
             ctx.violation("parse-" + ("hang" if st == "hang" else "raises"), f"parsing an HTML fragment did not return a document: {j}", replay)
             continue
+        # the same parse once more, recorded, for the placement-core tie (and a parse_slice of the same DOM)
+        info = infos[name]
+        sid = ctx.driver.add_schema(info)
+        dom = lxml.html.fragment_fromstring(html, create_parent="document-fragment")
+        (st_r, doc_r), pcs = recorded(info, lambda: parsers[name].parse(dom))
+        if st_r == "ok" and len(pcs) == 1 and pcs[0]._supported and doc_r.to_json() == j:
+            preqs.append(placement_request(info, sid, pcs[0]))
+            pmetas.append((replay, info, pcs[0], "parse"))
+        else:
+            ctx.count("placement:not-recorded")
+        if rng.random() < 0.5:
+            (st_s, sl), pcs = recorded(info, lambda: parsers[name].parse_slice(dom))    # `dom` now carries the lxmltext nodes
+            if st_s == "ok" and len(pcs) == 1 and pcs[0]._supported:
+                preqs.append(placement_request(info, sid, pcs[0]))
+                pmetas.append((dict(replay, slice=True, open=[sl.open_start, sl.open_end]), info, pcs[0], "parse_slice"))
+            else:
+                ctx.count("placement:slice-" + st_s)
         stn, node = outcome(lambda: Node.from_json(schema, j))
         prob = validator(schema).problem(j) if stn == "ok" else "from_json failed"
         stc, err = outcome(node.check) if stn == "ok" else ("internal", "")
@@ -315,6 +487,13 @@ def run(ctx):
             walk(node, ["doc"])
             if bad:
                 ctx.violation("context-rule", "a context-restricted parse rule was applied where the open ancestors do not match, or not applied where they do: " + bad[0], dict(replay, doc=j))
+    if preqs:
+        outs = ctx.driver.run(preqs)
+        for (replay, info, pc, kind), out in zip(pmetas, outs):
+            ctx.count("model_requests")
+            placement_compare(ctx, replay, info, pc, out, kind)
+            if kind == "parse_slice" and "open" in out and out["open"] != replay["open"]:
+                ctx.mismatch("placement-slice-open", replay, replay["open"], out["open"])
     # ---- export, escaping, round trip
     for name, schema in parse_schemas[:2]:
         info = schemas.by_name(name)
